@@ -571,6 +571,52 @@ class Exec:
         
 
 
+def emptiness_predicates(ctx, schemes=None, rid="K3.guard-typestate"):
+    """sibling agreement: a marked_ptr is 'non-empty' for operator bool when ANY bit (pointer or mark) is set, for `get() != nullptr` only when
+    the pointer bits are.  For schemes that count guards (critical-region nesting, region entries) every member must use ONE of the two
+    predicates for 'this guard holds a protection unit' - a marked null pointer otherwise enters without leaving or leaves without entering"""
+    for scheme, cfg in SCHEMES.items():
+        if schemes and scheme not in schemes:
+            continue
+        units = tuple(cfg.get("enter", ())) + tuple(cfg.get("leave", ()))
+        if not units or cfg.get("slot") or cfg.get("refcount"):
+            continue
+        kinds = {}
+        for fn in ctx.facts.fns:
+            if not fn.pat.startswith("xenium::reclamation::%s::guard_ptr::" % scheme):
+                continue
+            acts = [e for e in flow.find(fn, {"k": "call"}) if fn.nodes[e].get("callee", "").split("::")[-1] in units]
+            if not acts:
+                continue
+            for b, blk in fn.blocks.items():
+                if "cond" not in blk or b not in fn.live_blocks():
+                    continue
+                op, leaves = flow._flatten_logical(fn, blk["cond"])
+                for atom, pol in leaves:
+                    if atom is None or atom < 0:
+                        continue
+                    kind = None
+                    c = flow.eq_cmp(fn, atom)
+                    if c is not None and (flow.const_value(fn, c[1]) == 0 or flow.const_value(fn, c[2]) == 0):
+                        side = c[2] if flow.const_value(fn, c[1]) == 0 else c[1]
+                        if flow.has_src(fn, side, "field:ptr"):
+                            kind = "get()!=nullptr" if flow.has_src(fn, side, "call:get") else "==marked_ptr{}"
+                    elif c is None and flow.has_src(fn, atom, "field:ptr") and fn.nodes[atom]["k"] in ("call", "member", "cast"):
+                        kind = "get()!=nullptr" if flow.has_src(fn, atom, "call:get") else "operator bool"
+                    if kind and any(fn.event_reaches(atom, a) or True for a in acts):
+                        kinds.setdefault(kind, []).append((fn, atom))
+        if not kinds:
+            continue
+        major = max(kinds, key=lambda k_: len(kinds[k_]))
+        for k_, sites in sorted(kinds.items()):
+            for fn, atom in sites:
+                ctx.check(k_ == major, rid, "%s::guard_ptr#emptiness-predicate@%s" % (scheme, fn.pat.split("::")[-1]) + ("" if k_ == major else "!"),
+                          "'guard holds a unit' is tested as %s like in the other members" % k_,
+                          "%s tests %s where the other members of %s::guard_ptr test %s: for a marked null pointer (nullptr with a mark) the two disagree, so this "
+                          "guard enters the critical region without ever leaving it or leaves without having entered (the nesting counter drifts; an object is "
+                          "reclaimed under a live guard of the same thread)" % (fn.pat, k_, scheme, major), fn.where(atom), fn=fn)
+
+
 def member_kind(fn):
     rec = fn.rec
     if rec.get("copyctor") or rec.get("copyassign"):
